@@ -126,6 +126,10 @@ impl Prop for C10 {
             if c.source() != text {
               return Err(format!("step {step}: source() = {:?}, wrapped source gives {text:?}", c.source()));
             }
+            // the wrapped source itself stays reachable and unchanged
+            if c.original().source() != text || c.original().buffer() != bytes {
+              return Err(format!("step {step}: original() no longer answers like the wrapped source"));
+            }
           }
           "buffer" => {
             if c.buffer() != bytes {
